@@ -103,7 +103,7 @@ Scenarios ==
   \cup
   \* C15: probe predicate
   { Scenario("probe", p, "normal", pr, FALSE, "vf.test", "absent", ua, pt, m, pa, <<>>) :
-      p \in Protos, pr \in BOOLEAN, ua \in UAs, pt \in BOOLEAN, m \in {"GET", "POST"}, pa \in {"/healthz", "/a?x=kube-probe/1"} }
+      p \in Protos, pr \in BOOLEAN, ua \in UAs, pt \in BOOLEAN, m \in {"GET", "POST"}, pa \in {"/healthz", "/a?x=kube-probe/1", "//healthz/./x"} }   \* the last one: a path that is legal but not in canonical form
   \cup
   \* C08 request-target clause: method, path and query are opaque to the proxy and must arrive as sent
   { Scenario("target", p, "normal", FALSE, FALSE, "vf.test", "absent", <<"curl/8">>, FALSE, m, pa, <<>>) :
